@@ -224,6 +224,7 @@ def bump(F, R):
             g = f.term_site(gs[0][0])
             p = f.exists_path(cas[0].site, sites_of(cas), [g])
             R.ob('LOOP', 'LOOP::%s::bounds-test-per-retry' % fnkey(f), p is None and all(f.dominates(g, c.site) for c in cas), 'the bounds test dominates the CAS and is re-evaluated after a failed CAS', g.where, f)
+    rc = lib.oriented(rc, r'full_memory_size')
     if rc:
         R.ob('CMP', 'CMP::%s::bounds-shape' % fnkey(f), rc[1] == '>' and 'full_memory_size' in rc[2] and 'Layout::size' in rc[0], 'refusal condition `%s %s %s`' % rc[:3], rc[3].where, f)
     if rc and cas:
